@@ -567,12 +567,12 @@ def history_part(rep, rng, nprobes, nhist_per_probe, maxlen, seeds):
 
 def explore(rep, br, tier, seed):
     rng = random.Random(seed)
-    nest_part(rep, rng, 600 if tier == "quick" else 6000)
+    nest_part(rep, rng, 600 if tier == "quick" else 12000)
     seeds = [str(s) for s in range(16)] + ["random"]
     if tier == "quick":
         history_part(rep, rng, nprobes=10, nhist_per_probe=6, maxlen=50, seeds=seeds)
     else:
-        history_part(rep, rng, nprobes=30, nhist_per_probe=14, maxlen=50, seeds=seeds)
+        history_part(rep, rng, nprobes=40, nhist_per_probe=25, maxlen=50, seeds=seeds)
 
 
 def search_without_model(rep, tier, seed):
